@@ -27,6 +27,10 @@ type taintSetup struct {
 	sim    *world.Sim
 	route  []int
 	prof   string
+	// note describes the circumstances of the value under observation
+	// ("barrier-crossed-unknowing": the tree holds a barrier and the value
+	// has passed through a process that does not know barrierErr)
+	note string
 }
 
 func newTaint(t *tape.Tape, tier Tier, res *Result, alpha gen.Alphabet, allowUnknowing bool, prop string) *taintSetup {
@@ -147,7 +151,16 @@ func (ts *taintSetup) run(res *Result, prop string, check func(e error, where st
 			res.add(Violation{Prop: prop, Oracle: "transfer", Culprit: obs.PanicSite(d.Panic + d.RePanic), Expected: "no panic", Observed: short(d.Panic + d.RePanic), Where: where})
 			return
 		}
+		ts.note = ""
+		if ts.spec.HasKind(func(k gen.Kind) bool { return gen.Info(k).Groups&gen.GBarrier != 0 }) {
+			for _, pid := range d.Msg.Path {
+				if ts.sim.Procs[pid].Prof.Unknown[famBarrier] {
+					ts.note = "barrier-crossed-unknowing"
+				}
+			}
+		}
 		check(d.Err, where, d.Proc, d.ReData)
+		ts.note = ""
 	}
 	ts.sim.Run()
 	res.Stats = ts.sim.Stats
@@ -404,11 +417,11 @@ func (c06) Run(t *tape.Tape, tier Tier) *Result {
 					// is recognised line by line, not on a truncated rendering)
 					pl, sl := strings.Split(plain, "\n"), strings.Split(stripped, "\n")
 					if len(pl) != len(sl) {
-						res.add(Violation{Prop: "C06", Oracle: "congruent:" + verb, Culprit: "line-count", Expected: short(fmt.Sprintf("%q", plain)), Observed: short(fmt.Sprintf("%q", stripped)), Where: where})
+						res.add(Violation{Prop: "C06", Oracle: "congruent:" + verb, Culprit: "line-count", Config: ts.note, Expected: short(fmt.Sprintf("%q", plain)), Observed: short(fmt.Sprintf("%q", stripped)), Where: where})
 					} else {
 						for li := range pl {
 							if pl[li] != sl[li] {
-								res.add(Violation{Prop: "C06", Oracle: "congruent:" + verb, Culprit: "line", Expected: fmt.Sprintf("%q", pl[li]), Observed: fmt.Sprintf("%q", sl[li]), Where: fmt.Sprintf("%s, line %d", where, li+1)})
+								res.add(Violation{Prop: "C06", Oracle: "congruent:" + verb, Culprit: "line", Config: ts.note, Expected: fmt.Sprintf("%q", pl[li]), Observed: fmt.Sprintf("%q", sl[li]), Where: fmt.Sprintf("%s, line %d", where, li+1)})
 							}
 						}
 					}
